@@ -410,20 +410,21 @@ PROPS["C13"] = {'claimed': True,
                 'input, set_online / set_offline, user interference) with stated invariants: C13_visit_bounded - in every visit a high-priority-only round happens '
                 'only after the deadline and only if no application was asked before in that visit, normal rounds only before the deadline (so at most one message '
                 'cycle starts after the deadline); C13_one_gap_poll_per_visit - between two visits AwaitStatusResponse is entered (= one GAP request sent) at most '
-                'once, from PassToken. Global, conditional: C13_rotation_bound_conditional - for any N and any sequence of visits of a stable ring whose visits '
-                'satisfy visit_ok (= per round exactly the conclusion of C13_hold_rule / C13_visit_bounded, deadline <= previous token time + TTR from '
-                'C13_deadline_as_coded, plus assumed bounds C on a message cycle and O on the hand-over), every rotation takes at most TTR + N (C + O) (via the '
-                'abstract rotation_bound). The model is tied to the crate by the fdl correspondence check and the C13 rules of the FdlOracle.v monitor.'),
+                'once, from PassToken. C13_deadline_constant_in_visit - all polls of a visit that ask applications see the same end_token_hold_time. Global, '
+                'conditional: C13_rotation_bound_conditional - for any N and any sequence of visits of a stable ring whose visits satisfy visit_ok (= per round '
+                'exactly the conclusion of C13_hold_rule / C13_visit_bounded, deadline <= previous token time + TTR from C13_deadline_as_coded, plus assumed bounds '
+                'C on a message cycle and O on the hand-over), every rotation takes at most TTR + N (C + O) (via the abstract rotation_bound). The model is tied to '
+                'the crate by the fdl correspondence check and the C13 rules of the FdlOracle.v monitor.'),
  'level_note': ('Trusted: Coq kernel, the regex translators, OCaml extraction + driver, Rust harness. The hand model is validated, not verified, against active.rs '
                 '(differential execution on the explored histories). The rotation bound is a theorem about abstract visit records; its hypotheses are discharged '
                 'for ONE model station only in the sense that hold_ok / deadline_ok restate the conclusions of the local theorems; the timing hypotheses (C, O, '
                 'ring stability) are assumptions about the environment and the poll schedule.'),
  'partial_gap': ('NOT proved: that the composed N-station timed system (N model stations on a shared medium with a poll schedule) produces visit sequences '
                  'satisfying ring_run and visit_ok - i.e. ring stability, a bound C on one message cycle (slot time, poll latency, peers answering or timing out), a '
-                 'bound O on the hand-over (GAP poll, token telegram, retries), and the formal extraction of `visit` records from the N station histories (incl. '
-                 "that end_token_hold_time stays constant inside a visit and that last_token_time is the previous visit's token time along histories; both are only "
-                 'given one-step by C13_deadline_as_coded). No starvation-freedom statement for stations or applications is proved beyond the bound above. The first '
-                 'GAP request of a sweep is not covered by the hold-time reserve (as coded).'),
+                 'bound O on the hand-over (GAP poll, token telegram, retries), and the formal extraction of `visit` records from the N station histories (that '
+                 "last_token_time is the token time of the station's previous visit along histories is only given one-step by C13_deadline_as_coded). No "
+                 'starvation-freedom statement for stations or applications is proved beyond the bound above. The first GAP request of a sweep is not covered by the '
+                 'hold-time reserve (as coded).'),
  'design_ref': 'DESIGN.md section 4, C13',
  'assumptions': ['single station for the local theorems; arbitrary applications, the same number passed to every poll',
                  'for the rotation bound: a stable ring of N stations whose visits satisfy visit_ok with bounds C (message cycle) and O (hand-over)']}
